@@ -591,3 +591,6 @@ def writers(chk, repo):
            "index", ok, a0 if a0 is not None else ex.node, why + ": with a "
            "narrower read, ordinary frames whose index has small low bits "
            "are dispatched to a fast group's program")
+
+# added rules (appended to the explanation the evidence file carries)
+EXPLANATION += (" " + 'Added during the build (DESIGN.md 4.31, second table): nothing binds another attribute to the sterile template and writes it in place; the program-table slot written was looked up in the shared table and found empty; write commands enter packets through append_writer only (shared with C11); the guard bound folded.')
